@@ -146,17 +146,26 @@ def run(rep, facts, tier):
     # which source a token belongs to is a question of identity: its parent IS the interned buffer.  A comparison of the text
     # names the oldest source with the same content (`a b /` submitted twice: the second failure was put in <buffer#1>)
     n_id = 0
-    for fn in sorted(fx.fns):
+    from .c08 import type_of_operand
+    # the lookups: functions that are handed the registry (a slice of (name, text) pairs), and their closures
+    lookups = set()
+    for fn, f0 in fx.fns.items():
+        if '{closure' in fn:
+            continue
+        if any('[(arcstr::arc_str::ArcStr, arcstr::arc_str::ArcStr)]' in f0.local_ty(k).replace('ArcStr, ArcStr', 'arcstr::arc_str::ArcStr, arcstr::arc_str::ArcStr')
+               or '[(arcstr::arc_str::ArcStr, arcstr::arc_str::ArcStr)]' in f0.local_ty(k) for k in range(1, f0.argc + 1)):
+            lookups.add(fn)
+    scope = sorted(fn for fn in fx.fns if fn.split('::{closure')[0] in lookups)
+    for fn in scope:
         f = fx.fns[fn]
         for bb, t in f.calls():
             c = callee_of(t) or ''
-            if not (c.startswith('arcstr::arc_str::ArcStr::ptr_eq') or 'core::cmp::PartialEq' in c):
-                continue
-            txt = ' '.join(expr_str(f.expr_of_operand(a_), -12) for a_ in t['args'])
-            if 'Substr::parent' not in txt:
+            is_id = c.startswith('arcstr::arc_str::ArcStr::ptr_eq')
+            is_txt = 'core::cmp::PartialEq' in c and any('ArcStr' in type_of_operand(f, a_) for a_ in t['args'])
+            if not (is_id or is_txt):
                 continue
             n_id += 1
-            ok = 'ptr_eq' in c
+            ok = is_id
             rep.add('C17.R2', 'C17.R2:%s:source-of-a-token-by-identity' % fn, ok,
                     'the parent buffer of the token is matched by identity' if ok else
                     '%s finds the source of a token by comparing texts: of two sources with the same text the older one is named' % short(fn), fn, t.get('at'))
